@@ -54,7 +54,16 @@ def gen_def(rng):
         extra_task = True
     else:
         clash = None
-    return {"pkg": rng.choice(["", "a", "a/b"]), "run": rng.choice(["./run.sh", "true", "python3 x.py --flag"]), "insts": insts,
+    # instance fields of a type outside the documented one: the group passes them on as written, so both
+    # forms must agree (both rejected)
+    if insts and rng.random() < 0.12:
+        j = rng.randrange(len(insts))
+        insts[j]["raw_args"] = rng.choice(["'abc'", "('a', 'b')", "7", "{'a': 1}"])
+    if insts and rng.random() < 0.1:
+        j = rng.randrange(len(insts))
+        insts[j]["raw_options"] = rng.choice(["[('k', 1)]", "'kv'", "[]", "(('k', 1),)"])
+    twin = rng.random() < 0.25 and ninst > 0 and clash is None
+    return {"pkg": rng.choice(["", "a", "a/b"]), "run": rng.choice(["./run.sh", "true", "python3 x.py --flag"]), "insts": insts, "twin": twin,
             "chain": rng.choice([None, False, True, True]), "deps": other, "deps_form": rng.choice(["list", "list", "list", "tuple", "omit", "omit"] if ndeps == 0 else ["list", "list", "list", "list", "tuple"]),
             "exp_form": rng.choice(["list", "list", "tuple", "genexpr", "omit"] if ninst == 0 else ["list", "list", "tuple", "genexpr"]),
             "extra": ("before" if clash == "other-before" else "after") if extra_task else None, "clash": clash}
@@ -78,7 +87,7 @@ def write_forms(root_g, root_x, d):
     # --- group form
     inst_src = []
     for i in d["insts"]:
-        if i.get("positional"):
+        if i.get("positional") and "raw_args" not in i and "raw_options" not in i:
             parts = [repr(i["name"])]
             if "args" in i:
                 parts.append("[%s]" % ", ".join(lit(a) for a in i["args"]))
@@ -94,9 +103,13 @@ def write_forms(root_g, root_x, d):
             inst_src.append("ExperimentInstance(%s)" % ", ".join(parts + rest))
         else:
             parts = ["name=%r" % i["name"]]
-            if "args" in i:
+            if "raw_args" in i:
+                parts.append("args=%s" % i["raw_args"])
+            elif "args" in i:
                 parts.append("args=[%s]" % ", ".join(lit(a) for a in i["args"]))
-            if "options" in i:
+            if "raw_options" in i:
+                parts.append("options=%s" % i["raw_options"])
+            elif "options" in i:
                 parts.append("options={%s}" % ", ".join("%r: %s" % (k, lit(v)) for k, v in i["options"].items()))
             if "parallelizable" in i:
                 parts.append("parallelizable=%r" % i["parallelizable"])
@@ -120,9 +133,13 @@ def write_forms(root_g, root_x, d):
     prev = None
     for i in d["insts"]:
         parts = ["name=%r" % i["name"], "run=%r" % d["run"]]
-        if i.get("args"):
+        if "raw_args" in i:
+            parts.append("args=%s" % i["raw_args"])
+        elif i.get("args"):
             parts.append("args=[%s]" % ", ".join(lit(a) for a in i["args"]))
-        if i.get("options"):
+        if "raw_options" in i:
+            parts.append("options=%s" % i["raw_options"])
+        elif i.get("options"):
             parts.append("options={%s}" % ", ".join("%r: %s" % (k, lit(v)) for k, v in i["options"].items()))
         parts.append("parallelizable=%r" % bool(i.get("parallelizable", False)))
         deps = list(dstr) + ([prev] if (d["chain"] and prev) else [])
@@ -136,8 +153,17 @@ def write_forms(root_g, root_x, d):
         prev = ":" + i["name"]
     xs.append("combine(\n  name='grp',\n  deps=[%s],\n)\n" % ", ".join(repr(":" + i["name"]) for i in d["insts"]))
     xsrc = "\n".join(xs)
+    twin_dir = "twinpkg"
     for root, body in ((root_g, gsrc), (root_x, xsrc)):
         os.makedirs(root, exist_ok=True)
+        if d.get("twin"):
+            # the same definition once more in another COND file: instance names only have to be unique per file
+            tb = body
+            for o in d["deps"]:
+                if o["pkg"] == pkg:
+                    tb = tb.replace("':%s'" % o["name"], "'%s'" % gen.tid(o["pkg"], o["name"]))
+            os.makedirs(os.path.join(root, twin_dir), exist_ok=True)
+            open(os.path.join(root, twin_dir, "COND"), "w").write(tb)
         open(os.path.join(root, "cond_config.toml"), "w").write("disable_git = true\n")
         files = {k: list(v) for k, v in others.items()}
         mine = files.setdefault(pkg, [])
@@ -146,19 +172,21 @@ def write_forms(root_g, root_x, d):
         mine.append(body)
         if d["extra"] == "after":
             mine.append(solo)
+        if d.get("twin"):
+            mine.append("group(name='both', deps=[':grp', '//%s:grp'])\n" % twin_dir)
         for p, srcs in files.items():
             os.makedirs(os.path.join(root, p), exist_ok=True)
             open(os.path.join(root, p, "COND"), "w").write("\n".join(srcs))
     return gsrc, xsrc
 
 
-def load_all(root, pkg, tmpd):
+def load_all(root, pkg, tmpd, twin=False):
     from conductor.parsing.task_index import TaskIndex
     from conductor.task_identifier import TaskIdentifier
     from conductor.errors import ConductorError
     idx = TaskIndex(pathlib.Path(root))
     try:
-        idx.load_transitive_closure(TaskIdentifier.from_str(gen.tid(pkg, "grp")))
+        idx.load_transitive_closure(TaskIdentifier.from_str(gen.tid(pkg, "both" if twin else "grp")))
         idx.load_all_tasks_in_cond_file(pathlib.Path(pkg, "COND"))
     except ConductorError as ex:
         return ("rejected", type(ex).__name__)
@@ -190,8 +218,8 @@ def eval_defs(arg):
             rg, rx = os.path.join(sc.root, "g%d" % k), os.path.join(sc.root, "x%d" % k)
             gsrc, xsrc = write_forms(rg, rx, d)
             sigs.append(common.short_hash(d))
-            a = load_all(rg, d["pkg"], sc.root)
-            b = load_all(rx, d["pkg"], sc.root)
+            a = load_all(rg, d["pkg"], sc.root, d.get("twin"))
+            b = load_all(rx, d["pkg"], sc.root, d.get("twin"))
             out["reach"]["c19_pairs"] = out["reach"].get("c19_pairs", 0) + 1
             W = {"engine": "E5", "definition": d, "group_form": gsrc, "expansion": xsrc, "group_result": a, "expansion_result": b}
             if a[0] != b[0]:
